@@ -102,22 +102,22 @@ PARSING, POOL = load_parsing_py()
 
 
 class Grammar:
-    def __init__(self, ncat, head_left, density, nunary):
+    def __init__(self, ncat, head_left, density, nunary, mixed=False):
         self.cats = [Atom(f'c{i}') for i in range(ncat)]
         self.idx = {c: i for i, c in enumerate(self.cats)}
         self.head_left = head_left
+        self.mixed = mixed
         self.binary, self.unary = {}, {}
         lab = 0
         for x in range(ncat):
             for y in range(ncat):
                 if rng.random() < density:
-                    rs, used = [], set()
-                    for _ in range(rng.choice([1, 1, 2, 3])):
-                        c = rng.randrange(ncat)
-                        if c in used:
-                            continue
-                        used.add(c)
-                        rs.append(CombinatorResult(cat=self.cats[c], op_string=f'b{lab}', op_symbol=f'<b{lab}>', head_is_left=head_left))
+                    rs = []
+                    for _ in range(rng.choice([1, 1, 2, 3, 4])):
+                        # several results may share a category (and head direction): only the rule index tells them apart
+                        c = rng.randrange(ncat) if not rs or rng.random() < 0.6 else self.idx[rs[-1].cat]
+                        h = head_left if not mixed else (rng.random() < 0.5)
+                        rs.append(CombinatorResult(cat=self.cats[c], op_string=f'b{lab}', op_symbol=f'<b{lab}>', head_is_left=h))
                         lab += 1
                     self.binary[(x, y)] = rs
         for _ in range(nunary):
@@ -171,7 +171,8 @@ def model_score(G, t, tag, dep, penalty, tokens, ctx, ntags):
         if (node.op_string, node.op_symbol, node.head_is_left) not in [(r.op_string, r.op_symbol, r.head_is_left) for r in res]:
             fail('C12', 'binary node does not carry label/symbol/head direction of the result that created it',
                  got=[node.op_string, node.op_symbol, node.head_is_left], expected=[[r.op_string, r.op_symbol, r.head_is_left] for r in res], **ctx)
-        head, child = (lh, rh) if G.head_left else (rh, lh)
+        hl = node.head_is_left if G.mixed else G.head_left       # with mixed grammars the score follows the head flag the tree carries (checked above)
+        head, child = (lh, rh) if hl else (rh, lh)
         return G.idx[node.cat], head, ls + rs_ + float(dep[child][head + 1])
     ci, head, sc = rec(t, True)
     if pos[0] != len(tokens):
@@ -200,10 +201,10 @@ def make_sentence(G, ntags, n):
 
 def main():
     t0 = time.time()
-    NB = 40 if tier == 'quick' else 400
+    NB = 90 if tier == 'quick' else 900
     for bi in range(NB):
         ncat = rng.choice([3, 4, 5])
-        G = Grammar(ncat, head_left=rng.random() < 0.5, density=rng.choice([0.4, 0.6, 0.8]), nunary=rng.choice([0, 1, 2]))
+        G = Grammar(ncat, head_left=rng.random() < 0.5, density=rng.choice([0.4, 0.6, 0.8]), nunary=rng.choice([0, 1, 2]), mixed=(bi % 3 == 2))
         ntags = rng.choice([2, 3, ncat])
         cats = G.cats[:ntags]
         roots = [G.cats[i] for i in rng.sample(range(ncat), rng.choice([1, 2, ncat]))]
@@ -251,7 +252,7 @@ def main():
                     fail('C02', 'root category not allowed', cat=str(st.tree.cat), **ctx)
                 if not (abs(float(st.score) - ms) <= TOL * max(1.0, abs(ms))):
                     fail('C09', 'ScoredTree.score differs from the model score of its tree', reported=float(st.score), recomputed=ms, **ctx)
-            if any(b.score > a.score + TOL for a, b in zip(r1, r1[1:])):
+            if not G.mixed and any(b.score > a.score + TOL for a, b in zip(r1, r1[1:])):
                 fail('C10', 'n-best list not in non-increasing order', **ctx)
         # history: permutations, sub-batches, chunkings, process counts
         order = list(range(len(doc)))
